@@ -17,5 +17,5 @@ echo "== demo WITH patch (expect fail)"; ( cd $WT && eval "$DEMOCMD" 2>&1 | tail
 [ -n "${NOCHECK:-}" ] && exit 0
 for c in "$@"; do
   echo "== check $c on seeded tree"
-  ( cd /verif && VERIF_REPO=$WT python3 verif.py check $c --tier quick 2>&1 | grep -E "VIOLATION|KNOWN|signature|INFRA|^\[C" | head -12 )
+  ( cd /verif && VERIF_WORK=/root/scratch/seedrun.work VERIF_REPO=$WT python3 verif.py check $c --tier quick 2>&1 | grep -E "VIOLATION|KNOWN|signature|INFRA|^\[C" | head -12 )
 done
